@@ -998,6 +998,7 @@ class ManyToMany:
         return
 
     def add(self, key, val):
+        hash(val)  # an unhashable val must not leave an empty entry behind
         if key not in self.data:
             self.data[key] = set()
         self.data[key].add(val)
